@@ -2,10 +2,11 @@
    spec_b judges what the real balanceBlock put into the change sets against the physical-device
    reading of the layout; model_b compares it with the model's output (only when the sort
    comparator has no ties, otherwise Go's unstable sort leaves the outcome under-determined).
-   check_case: 0 ok, +1 mismatch, +2 spec violated outside every known-finding predicate,
-   +4 F1, +8 F10, +16 F12, +32 F8 (violations inside the narrow trigger predicate of that finding). *)
+   check_case: 0 ok, +1 mismatch, +2 spec violated.  No known-finding bit is accepted any more: F1, F10,
+   F12 and F8 are repaired in /repo (the predicates f1/f10/f12/lost_bits below are kept only for the
+   theorems about the old algorithm, model/C05_old_model.v). *)
 From Coq Require Import List Arith Bool NArith.
-From AV Require Import model.C05_model.
+From AV Require Import model.C05_model model.C05_old_model.
 Import ListNotations.
 
 Record case := {
@@ -132,6 +133,10 @@ Definition spec_b (c : case) : bool := spec_core c (o_trash c) (o_pull c) (o_los
 Definition m_out (c : case) : list change * bool :=
   balance (c_dflt c) (fun s => nth s (c_rank c) 0) (fun d => nth d (c_devrank c) 0) (c_min c)
           (c_raw c) (c_sro c) (c_repl c) (c_desired c).
+(* the algorithm before the repairs, on the same case *)
+Definition m_out_old (c : case) : list change * bool :=
+  balance_old (c_dflt c) (fun s => nth s (c_rank c) 0) (fun d => nth d (c_devrank c) 0) (c_min c)
+              (c_raw c) (c_sro c) (c_repl c) (c_desired c).
 Definition trashes (l : list change) : list (nat * nat) :=
   flat_map (fun ch => match ch with Trash m t => [(m, t)] | _ => [] end) l.
 Definition pulls (l : list change) : list (nat * nat) :=
@@ -163,11 +168,14 @@ Definition model_b (c : case) : bool :=
    peq (psort (trashes chs)) (psort (o_trash c)) && peq (psort (pulls chs)) (psort (o_pull c)) &&
    Bool.eqb lost (o_lost c)).
 
-(* the model's own output judged by the same clauses *)
+(* a model's own output judged by the same clauses *)
 Definition model_spec (c : case) : bool :=
   let '(chs, lost) := m_out c in spec_core c (trashes chs) (pulls chs) lost.
+Definition model_spec_old (c : case) : bool :=
+  let '(chs, lost) := m_out_old c in spec_core c (trashes chs) (pulls chs) lost.
 
-(* ---------- hypotheses of the _partial theorem (proofs/C05_spec.v: hyp_b c = true -> model_spec c = true) ---------- *)
+(* ---------- hypotheses under which the OLD algorithm met the specification (proofs/C05_spec.v:
+   hyp_b c = true -> model_spec_old c = true); kept with the old model as regression witness ---------- *)
 Fixpoint nodupb (l : list nat) : bool :=
   match l with [] => true | x :: r => negb (mem x r) && nodupb r end.
 Definition hyp_b (c : case) : bool :=
@@ -185,16 +193,8 @@ Definition hyp_b (c : case) : bool :=
   existsb (fun m => negb (mro m)) eff.
 
 
-(* A failing case counts as an instance of a known finding only if it lies inside that finding's
-   predicate AND lies outside the hypotheses under which the model is proved to meet the specification
-   AND (when the outcome is determined) the faithful model of the current code fails the
-   specification on it too; otherwise it is a new violation (+2). *)
 Definition check_case (c : case) : N :=
-  let m := if model_b c then 0%N else 1%N in
-  let s := spec_bits c (o_trash c) (o_pull c) (o_lost c) in
-  let s' := if N.eqb s 0 then 0%N
-            else if hyp_b c || (no_ties c && model_spec c) then N.lor 2 s else s in
-  (m + s')%N.
+  ((if model_b c then 0 else 1) + (if spec_b c then 0 else 2))%N.
 
 Fixpoint failing_from (i : N) (cs : list case) : list (N * N) :=
   match cs with
@@ -204,9 +204,8 @@ Fixpoint failing_from (i : N) (cs : list case) : list (N * N) :=
   end.
 Definition failing (cs : list case) : list (N * N) := failing_from 0%N cs.
 
-(* ---------- evaluation against the model of the REPAIRED algorithm (model/C05_fixed.v) ----------
-   Used only when the harness runs a scratch copy of balance.go with fixes/*.diff applied
-   (VERIF_C05_FIXED=1): no known-finding bit is accepted, every spec failure counts. *)
+(* ---------- the alternative repair that was studied (model/C05_fixed.v, fixes/F1_F10_alt_protection_pass.diff):
+   its output on a case, for proofs/C05_fixed_proofs.v ---------- *)
 From AV Require Import model.C05_fixed.
 Definition m_out_f (c : case) : list change * bool :=
   balance_f (c_dflt c) (fun s => nth s (c_rank c) 0) (fun d => nth d (c_devrank c) 0) (c_min c)
@@ -226,22 +225,3 @@ Fixpoint failing_fixed_from (i : N) (cs : list case) : list (N * N) :=
   end.
 Definition failing_fixed (cs : list case) : list (N * N) := failing_fixed_from 0%N cs.
 
-(* the same for the recommended variant of the repair (model/C05_fixed2.v; VERIF_C05_FIXED=2) *)
-From AV Require Import model.C05_fixed2.
-Definition m_out_f2 (c : case) : list change * bool :=
-  balance2 (c_dflt c) (fun s => nth s (c_rank c) 0) (fun d => nth d (c_devrank c) 0) (c_min c)
-           (c_raw c) (c_sro c) (c_repl c) (c_desired c).
-Definition model_f2_b (c : case) : bool :=
-  negb (no_ties c) ||
-  (let '(chs, lost) := m_out_f2 c in
-   peq (psort (trashes chs)) (psort (o_trash c)) && peq (psort (pulls chs)) (psort (o_pull c)) &&
-   Bool.eqb lost (o_lost c)).
-Definition check_case_fixed2 (c : case) : N :=
-  ((if model_f2_b c then 0 else 1) + (if spec_b c then 0 else 2))%N.
-Fixpoint failing_fixed2_from (i : N) (cs : list case) : list (N * N) :=
-  match cs with
-  | [] => []
-  | c :: r => let k := check_case_fixed2 c in
-              if N.eqb k 0 then failing_fixed2_from (N.succ i) r else (i, k) :: failing_fixed2_from (N.succ i) r
-  end.
-Definition failing_fixed2 (cs : list case) : list (N * N) := failing_fixed2_from 0%N cs.
